@@ -7,7 +7,8 @@ handler scripts, invoked in list order (distinct descending priorities):
 
   {'t': 'p', 'k': [events fired], 'r': R}                     plain handler; R: None | 'x' (raise) | int | [ints]
                                                               | {'nest': event}: `return self.fire(event)`, i.e. the
-                                                              handler fires a nested event and returns its Value
+                                                              handler fires a nested event and returns its Value;
+                                                              optional 'st': 1 = the handler calls event.stop() first
   {'t': 'g', 'y': [[[events fired], Y], ...], 'k': [events fired in the last segment], 'x': raises at the end?,
    'ret': value of the generator's `return` (ignored by circuits)}     generator handler; Y: None | int | [ints]
 
@@ -86,6 +87,37 @@ def walk_events(evs):
 
 def is_nest(r):
     return isinstance(r, dict)
+
+
+def ran_handlers(e):
+    """indices of the handlers of e that the dispatcher pass invokes: up to and including the first plain handler
+    that calls event.stop()"""
+    out = []
+    for i, h in enumerate(e['h']):
+        out.append(i)
+        if h['t'] == 'p' and h.get('st'):
+            break
+    return out
+
+
+def stopped(e):
+    return any(h['t'] == 'p' and h.get('st') for h in e['h'])
+
+
+def fired_events(evs):
+    """the event specs of a forest that are actually fired: roots, and events fired by handlers that run"""
+    for e in evs:
+        yield e
+        for i in ran_handlers(e):
+            h = e['h'][i]
+            if h['t'] == 'p':
+                yield from fired_events(h['k'])
+                if is_nest(h['r']):
+                    yield from fired_events([h['r']['nest']])
+            else:
+                for st in h['y']:
+                    yield from fired_events(st[0])
+                yield from fired_events(h['k'])
 
 
 def canon_val(x):
@@ -194,6 +226,8 @@ def run_script(case):
     def mk_plain(L, i, hd):
         def fn(self, event):
             log.append([0, L, i])
+            if hd.get('st'):
+                event.stop()
             for ch in hd['k']:
                 fire_child(ch)
             if hd['r'] == 'x':
@@ -288,8 +322,12 @@ def coq_evs(l):
 def coq_hd(h):
     if h['t'] == 'p':
         if is_nest(h['r']):
-            return 'HP %s (RNest (%s))' % (coq_evs(h['k']), coq_ev(h['r']['nest']))
-        return 'HP %s %s' % (coq_evs(h['k']), 'RRaise' if h['r'] == 'x' else '(RRet %s)' % coq_py(h['r']))
+            r = 'RNest (%s)' % coq_ev(h['r']['nest'])
+        else:
+            r = 'RRaise' if h['r'] == 'x' else 'RRet %s' % coq_py(h['r'])
+        if h.get('st'):
+            r = 'RStop (%s)' % r
+        return 'HP %s (%s)' % (coq_evs(h['k']), r)
     return 'HG [%s] %s %s' % ('; '.join('(%s, %s)' % (coq_evs(k), coq_py(y)) for k, y in h['y']),
                               coq_evs(h['k']), b(h['x']))
 
@@ -341,14 +379,17 @@ class Gen:
                     r = {'nest': self.ev(d + 1)}
                 else:
                     r = 'x' if rng.random() < p['r'] else self.val(0.3)
-                e['h'].append({'t': 'p', 'k': kids, 'r': r})
+                h = {'t': 'p', 'k': kids, 'r': r}
+                if rng.random() < p['stop']:
+                    h['st'] = 1
+                e['h'].append(h)
         return e
 
 
 def gen_case(rng, tier):
     p = {'s': rng.choice([0.5, 0.8, 1.0]), 'f': rng.choice([0.3, 0.6, 1.0]), 'n': rng.choice([0, 0.3, 0.7]),
          'g': rng.choice([0, 0.25, 0.5, 0.7]), 'r': rng.choice([0, 0.2, 0.4]), 'gr': rng.choice([0, 0.25, 0.5]),
-         'lst': rng.choice([0, 0, 0.1, 0.3]), 'nest': rng.choice([0, 0, 0.15, 0.35])}
+         'lst': rng.choice([0, 0, 0.1, 0.3]), 'nest': rng.choice([0, 0, 0.15, 0.35]), 'stop': rng.choice([0, 0, 0.08, 0.2])}
     if rng.random() < 0.15:     # plain handlers only, many raises and nested-Value returns (err / errors-flag interplay)
         p.update(g=0, r=0.4, nest=0.4, s=1.0)
     g = Gen(rng, rng.choice([2, 4, 8, 12]), rng.choice([1, 2, 3]), p)
@@ -388,11 +429,13 @@ def event_results(e, log, fin=None):
 
 
 def nested_labels(e):
-    return [h['r']['nest']['l'] for h in e['h'] if h['t'] == 'p' and is_nest(h['r'])]
+    hs = [e['h'][i] for i in ran_handlers(e)]
+    return [h['r']['nest']['l'] for h in hs if h['t'] == 'p' and is_nest(h['r'])]
 
 
 def own_raises(e):
-    return any((h['t'] == 'p' and h['r'] == 'x') or (h['t'] == 'g' and h['x']) for h in e['h'])
+    hs = [e['h'][i] for i in ran_handlers(e)]
+    return any((h['t'] == 'p' and h['r'] == 'x') or (h['t'] == 'g' and h['x']) for h in hs)
 
 
 def nested_raise(e, specs):
@@ -422,15 +465,15 @@ class C04(Prop):
             'list) ending in return or raise, every handler and every generator segment firing 0-2 child events; '
             'success / failure / notify flags, events on one or two channels, 4 success_channels settings; task-set '
             'iteration order rotated per tick; plain handlers that fire a nested event and return its Value '
-            '(`return self.fire(e)`). non-trivial = an event with >= 2 handlers among which a raise, a generator or a '
-            'nested-Value return')
+            '(`return self.fire(e)`); plain handlers that call event.stop() first. non-trivial = an event with >= 2 '
+            'handlers among which a raise, a generator, a nested-Value return or a stop')
     trusted_base = ['hand-written model Model/Feedback.v (Value.setValue/inform, dispatcher try/except, generator '
                     'registration, _eventDone gate, processTask branches for plain generators) tied to the repository by '
                     'this correspondence run on the global log and the final Value of every event',
                     'python oracle in harness/c04.py reading the property off the log, the script and the final Values',
                     'task-set double with controlled iteration order; fire wrapper logging derived events']
     assumptions = ['all events fired with priority 0; distinct handler priorities; one firing thread',
-                   'handlers do not call flush()/tick()/stop(), call(), wait(), event.stop(); the only Value a handler '
+                   'handlers do not call flush()/tick()/stop(), call(), wait(); event.stop() only from plain handlers; the only Value a handler '
                    'returns is that of an event it has just fired; generators do not yield Values',
                    'a failure of a nested event whose Value an event holds is propagated into its errors flag by design; '
                    'the oracle leaves the flag (and a success suppressed by it while generators are pending) undecided',
@@ -445,7 +488,7 @@ class C04(Prop):
         cases = [gen_case(rng, tier) for _ in range(n)]
         st = {'events': 0, 'success': 0, 'failure': 0, 'notify': 0, 'two_channels': 0, 'success_channels': 0,
               'plain_none': 0, 'plain_value': 0, 'plain_list': 0, 'plain_raise': 0, 'gen': 0, 'gen_raise': 0,
-              'gen_yields': 0, 'nested_events': 0, 'returns_nested_value': 0, 'raise_then_nested_value': 0, 'raise_and_gen_events': 0, 'multi_result_events': 0}
+              'gen_yields': 0, 'nested_events': 0, 'returns_nested_value': 0, 'raise_then_nested_value': 0, 'stop': 0, 'stop_before_other_handlers': 0, 'raise_and_gen_events': 0, 'multi_result_events': 0}
         for c in cases:
             roots = {e['l'] for e in c['roots']}
             for e in walk_events(c['roots']):
@@ -465,13 +508,16 @@ class C04(Prop):
                         nr += sum(1 for y in h['y'] if y[1] is not None) + h['x']
                     elif is_nest(h['r']):
                         st['returns_nested_value'] += 1
+                        st['stop'] += bool(h.get('st'))
                         nr += 1
                     else:
                         k = ('plain_raise' if h['r'] == 'x' else 'plain_none' if h['r'] is None else
                              'plain_list' if isinstance(h['r'], list) else 'plain_value')
                         st[k] += 1
+                        st['stop'] += bool(h.get('st'))
                         nr += h['r'] is not None
                 st['multi_result_events'] += nr >= 2
+                st['stop_before_other_handlers'] += len(ran_handlers(e)) < len(e['h'])
                 seen_raise = False
                 for h in e['h']:
                     if h['t'] == 'p' and h['r'] == 'x':
@@ -520,13 +566,25 @@ class C04(Prop):
         if not obs['quiet']:
             stuck = sorted(l for l, f in fin.items() if f[5] != 0)
             return 'hang: queue and task set did not drain in %d ticks (events still waiting: %r)' % (MAXTICKS, stuck)
-        # isolation: whatever raised, every event of the forest was fired and dispatched, every handler ran to its end
+        # isolation: whatever raised, every event fired by a handler that runs was fired and dispatched, every handler
+        # up to the first one that calls event.stop() ran to its end, the others (and their events) not at all
+        fired = {e['l']: e for e in fired_events(case['roots'])}
         for L, e in sorted(specs.items()):
+            if L not in fired:
+                if any(x[0] in (0, 1, 4, 5) and x[1] == L for x in log):
+                    return 'stop: event %d belongs to a handler that must not run but left log entries (event %d)' % (L, L)
+                continue
             if cnt([5, L]) != 1:
                 return 'isolation: event %d was fired %d times although every handler must run (event %d)' % (L, cnt([5, L]), L)
-            if cnt([4, L, 0]) != 1 or cnt([4, L, 1]) != (1 if e['b'] else 0):
+            want = (0, 0) if stopped(e) else (1, 1 if e['b'] else 0)
+            if (cnt([4, L, 0]), cnt([4, L, 1])) != want:
                 return 'isolation: event %d was not dispatched exactly once to the observers (event %d)' % (L, L)
+            ran = ran_handlers(e)
             for i, h in enumerate(e['h']):
+                if i not in ran:
+                    if any(x[0] in (0, 1) and x[1] == L and x[2] == i for x in log):
+                        return 'stop: handler %d of event %d ran although the event had been stopped (event %d)' % (i, L, L)
+                    continue
                 if h['t'] == 'p':
                     if cnt([0, L, i]) != 1:
                         return 'isolation: handler %d of event %d invoked %d times (event %d)' % (i, L, cnt([0, L, i]), L)
@@ -538,6 +596,7 @@ class C04(Prop):
                             return 'isolation: segment %d of generator handler %d of event %d ran %d times (event %d)' % (
                                 k, i, L, len(ps), L)
                         last = ps[0]
+        specs = fired
         # problems of all events are collected; one that is not an instance of a recorded finding is reported first,
         # so that a recorded finding never masks a different problem of the same case
         probs = []
@@ -598,23 +657,14 @@ class C04(Prop):
         fin = {f[0]: f for f in obs['final']}
         results, raises = event_results(e, obs['log'], fin)
         has_nest = bool(nested_labels(e))
-        if what.startswith('value: event') and not has_nest:
+        if what.startswith('value: event'):
             if len(results) >= 2 and results[0][0] == 3 and fin[L][1] == [3, results[0][1] + results[1:]]:
                 return 'C04-list-result-merged'
-        # the three symptoms of Value.setValue copying result/errors from a (still unresolved) nested Value
-        if what.startswith('value: event') and has_nest and len(results) >= 2:
-            return 'C04-nested-value-loses-results'
-        if what.startswith('errors:') and has_nest and raises > 0 and fin[L][2] is False:
-            return 'C04-nested-value-clears-errors'
-        if (what.startswith('success:') and 'handlers raised' in what and has_nest and raises > 0
-                and any(h['t'] == 'g' for h in e['h'])
-                and sum(1 for x in obs['log'] if x == [3, 0, L]) == 1):
-            return 'C04-nested-value-success-after-failure'
         return None
 
     def nontrivial(self, case, obs):
         for e in walk_events(case['roots']):
-            if len(e['h']) >= 2 and any(h['t'] == 'g' or h['r'] == 'x' or is_nest(h['r']) for h in e['h']):
+            if len(e['h']) >= 2 and any(h['t'] == 'g' or h['r'] == 'x' or is_nest(h['r']) or h.get('st') for h in e['h']):
                 return True
         return False
 
